@@ -171,6 +171,14 @@ def check_c16(prop, tier, seed):
             v.tool_error('Pause with deviation %s: expected a violation' % d)
         else:
             v.extra.setdefault('model_negative_control', []).append('%s: AllProceed / HeldWhilePaused violated' % d)
+    # any number of PAUSE / RESUME / RELOAD / client steps: an invariant containing HeldWhilePaused is inductive for the
+    # design (Apalache, symbolic; liveness stays with TLC); it is not when a re-created pool gets a flag of its own
+    for name, cinit, init, length, expect in (('initial', 'ConstInit', 'Init', 0, 'ok'), ('step', 'ConstInit', 'IndInit', 1, 'ok'),
+                                              ('negative_control_recreated_pool', 'ConstInitForgets', 'IndInit', 1, 'violated')):
+        got = tlc.run_apalache('PauseApa', cinit, init, 'IndInv', length, timeout=900)
+        v.extra.setdefault('apalache_inductive_invariant', []).append({'check': name, 'result': got})
+        if got != expect:
+            v.tool_error('Apalache %s: expected %s, got %s' % (name, expect, got))
     with open(os.path.join(tlc.SPEC, 'Gen_Pause.cfg'), 'w') as f:
         f.write('SPECIFICATION GSpec\nCONSTANTS\n  Clients = {"A", "B"}\n  MaxOps = 10\n  Dev = {}\n  Depth = 5\nINVARIANT Emit\n')
     res = tlc.run_tlc('Gen_Pause', 'Gen_Pause.cfg', workers=8)
